@@ -839,8 +839,9 @@ def build_traj(case):
     drop = set()
     if kind == "unmatched":
         for j in range(len(ei)):
-            if rnd.random() < 0.3 and 0 < j < len(ei) - 1:
-                es[j] = st[ei[j]] + 0.35 * (st[ei[j] + 1] - st[ei[j]])
+            if rnd.random() < 0.35 and 0 < j < len(ei) - 1:
+                # displaced by a multiple of the threshold: 0.8 (still matched), 1.2 / 1.5 / 3 (dropped), either direction
+                es[j] = st[ei[j]] + rnd.choice([-1, 1]) * rnd.choice([0.8, 1.2, 1.5, 3.0]) * diff
                 drop.add(j)
     rp, ep = full[ri], est_full[ei]
     off = case["offset"]
@@ -929,6 +930,34 @@ def check_order(ctx, case, what, vals):
     slack = 8 * EPS64 * abs(mx) + 1e-300
     if not (mx + slack >= rmse and rmse + slack >= mean and mean + slack >= mn and mn >= 0 and mx + slack >= med and med + slack >= mn and sse >= 0):
         ctx.fail(pub(case), f"traj-order: {what}: Max >= RMSE >= Mean >= Min >= 0 violated: Max={mx!r} RMSE={rmse!r} Mean={mean!r} Min={mn!r} Median={med!r}")
+
+
+def np_stats(err):
+    e = np.abs(np.asarray(err, dtype=np.float64))
+    n = len(e)
+    srt = np.sort(e)
+    return [float(e.max()), float(e.min()), float(e.mean()), float(srt[(n - 1) // 2]), float(np.sqrt((e ** 2).mean())),
+            float((e ** 2).sum()), float(e.std(ddof=1)) if n > 1 else float("nan")]
+
+
+def np_rel_errors(etype, ref, est, rpe):
+    """documented error of reference poses `ref` against estimate poses `est` ([n,7] arrays), independent float64 maths.
+    ape: E = est^-1 ref (translation type: |t_est - t_ref|); rpe: E = ref^-1 est (translation type: |E.t|)."""
+    a, b = (ref, est) if rpe else (est, ref)      # E = a^-1 b
+    qa, qb = a[:, 3:7], b[:, 3:7]
+    qe = R.qmul(R.qconj(qa), qb)
+    te = R.qrot(R.qconj(qa), b[:, :3] - a[:, :3])
+    if etype == "translation":
+        return np.linalg.norm(te, axis=-1) if rpe else np.linalg.norm(est[:, :3] - ref[:, :3], axis=-1)
+    qe = R.qnormalize(qe)
+    Rm = R.qmat(qe)
+    fro = np.sqrt(((Rm - np.eye(3)) ** 2).sum(axis=(-2, -1)))
+    if etype == "rotation":
+        return fro
+    if etype == "pose":
+        return np.sqrt(fro ** 2 + (te ** 2).sum(-1))
+    ang = R.qangle(qe)
+    return ang if etype == "radian" else np.degrees(ang)
 
 
 def svd_T(ctx, case, B, ir, ie, with_scale):
@@ -1029,6 +1058,9 @@ def check_traj(ctx: Ctx, case, mb: MB) -> None:
     rs_m = B["rs_o"]
     es_m = B["es_o"]
 
+    if dtype == "float32":   # float32 quaternions are unit only to eps32: formulas that agree on unit quaternions may differ
+        tau = tau + 64 * EPS[dtype] * (1 + ts) * (180 / math.pi if case["etype"] == "degree" else 1)
+
     def cba(rep, vals=vals, tau=tau):
         st, toks = common.parse_reply(rep)
         if st != "ok":
@@ -1042,6 +1074,23 @@ def check_traj(ctx: Ctx, case, mb: MB) -> None:
             i = STAT_KEYS.index(bad)
             ctx.disagree("ape", pub(case), f"ape etype={case['etype']} mode={mode} {m} pairs: {bad} implementation {vals[i]!r} model {wst[i]!r} (item tol {tau:.3e})")
     mb.add(f"c19.ape {eline} {traj_line(rs_m, B['rp'])} {traj_line(es_m, B['ep'])}", cba)
+    # oracle: the documented definition evaluated independently (numpy float64) on the associated, aligned poses
+    rp_a, ep_a = B["rp"][ir], B["ep"][ie]
+    if mode == "origin":
+        T0 = R.se3_mul((rp_a[0, :3], rp_a[0, 3:]), R.se3_inv((ep_a[0, :3], ep_a[0, 3:])))
+        ea = R.left_mul(T0, ep_a)
+    elif svd_mode:
+        ea = R.apply_sim(T[7], np.array(T[3:7]), np.array(T[:3]), ep_a)
+    else:
+        ea = ep_a
+    unit_slack0 = 64 * EPS[dtype] * (1 + ts) * (180 / math.pi if case["etype"] == "degree" else 1) if dtype == "float32" else 0.0
+    want = np_stats(np_rel_errors(case["etype"], rp_a, ea, False))
+    bad = stats_close(vals, want, 8 * tau + unit_slack0, n)
+    if bad:
+        i = STAT_KEYS.index(bad)
+        ctx.fail(pub(case), f"ape-value: ape(etype={case['etype']}, mode={mode}) {bad} = {vals[i]!r}, the documented error over the {n} associated pairs gives {want[i]!r} (tol {8 * tau + unit_slack0:.3e})")
+    if not abs(vals[5] - n * vals[4] ** 2) <= 64 * EPS64 * abs(vals[5]) + 1e-300:
+        ctx.fail(pub(case), f"traj-stats: SSE {vals[5]!r} != n*RMSE^2 = {n * vals[4] ** 2!r} (n={n})")
     # single otype
     ot = case["otype"]
     try:
@@ -1180,6 +1229,9 @@ def check_rpe(ctx: Ctx, case, mb: MB, B, Tsvd, cond, ts, rnd) -> None:
     eline = (f"{to_wire(EPS64)} {ETYPES.index(rk['etype'])} {model_mode(mode)} {wire_list(T)} {to_wire(B['diff'])} {to_wire(B['off'])} "
              f"{0 if rk['associate'] == 'frame' else 1} {int(rk['delta'])} {to_wire(rk['delta'])} {to_wire(rk['rtol'])} {1 if rk['all'] else 0} {1 if rk['rpair'] else 0}")
 
+    if dtype == "float32":
+        tau = tau + 64 * EPS[dtype] * (1 + tsr) * (180 / math.pi if rk["etype"] == "degree" else 1)
+
     def cbr(rep, vals=vals, tau=tau):
         st_, toks = common.parse_reply(rep)
         if st_ != "ok":
@@ -1193,6 +1245,21 @@ def check_rpe(ctx: Ctx, case, mb: MB, B, Tsvd, cond, ts, rnd) -> None:
             ctx.disagree("rpe", pub(case), f"rpe etype={rk['etype']} mode={mode} {rk['associate']} delta={rk['delta']} all={rk['all']} rpair={rk['rpair']} ({mm} pairs): {bad} implementation {vals[i]!r} model {w[mm:][i]!r} (item tol {tau:.3e})")
     mb.add(f"c19.rpe {eline} {traj_line(B['rs_o'], B['rp'])} {traj_line(B['es_o'], B['ep'])}", cbr)
     unit_slack = 64 * EPS[dtype] * (1 + tsr) * (180 / math.pi if rk["etype"] == "degree" else 1) if dtype == "float32" else 0.0
+    # oracle: the documented definition evaluated independently on the relative poses of the index pairs
+    si, ti = [p[0] for p in pairs], [p[1] for p in pairs]
+
+    def rel(A_):
+        out = []
+        for a_, b_ in zip(A_[si], A_[ti]):
+            out.append(R.se3_vec(R.se3_mul(R.se3_inv((a_[:3], a_[3:])), (b_[:3], b_[3:]))))
+        return np.stack(out)
+    want = np_stats(np_rel_errors(rk["etype"], rel(rp_a), rel(ea), True))
+    bad = stats_close(vals, want, 8 * tau + unit_slack, m)
+    if bad:
+        i = STAT_KEYS.index(bad)
+        ctx.fail(pub(case), f"rpe-value: rpe(etype={rk['etype']}, mode={mode}, {rk['associate']}, delta={rk['delta']}, all={rk['all']}, rpair={rk['rpair']}) {bad} = {vals[i]!r}, the documented error over the {m} index pairs gives {want[i]!r} (tol {8 * tau + unit_slack:.3e})")
+    if not abs(vals[5] - m * vals[4] ** 2) <= 64 * EPS64 * abs(vals[5]) + 1e-300:
+        ctx.fail(pub(case), f"traj-stats: SSE {vals[5]!r} != n*RMSE^2 = {m * vals[4] ** 2!r} (n={m})")
     # oracle: identical trajectories
     try:
         idres = run_metric(A.rpe, B["rs"], B["rp"], B["rs"], B["rp"], dtype, **{**kw, "offset": 0.0})
@@ -1233,7 +1300,7 @@ def gen_traj_cases(ctx: Ctx, n: int):
         dt = rng.choice([0.033, 0.1, 1.0])
         diff = 0.01 if dt >= 0.1 else dt / 12
         ts = rng.choice([1e-2, 1.0, 1.0, 50.0])
-        assoc = rng.choice(["frame", "frame", "distance"])
+        assoc = rng.choice(["frame", "distance"])
         if assoc == "frame":
             delta = float(rng.choice([1, 1, 2, 3, 2.7]))
         else:
@@ -1249,7 +1316,7 @@ def gen_traj_cases(ctx: Ctx, n: int):
                       "otype": rng.choice(STAT_KEYS),
                       "rpe": {"etype": rng.choice(ETYPES), "mode": rng.choice(["none", "none", "origin", "align", "align+scale"]),
                               "associate": assoc, "delta": delta, "rtol": rng.choice([0.1, 0.3, 0.02]),
-                              "all": rng.random() < 0.5, "rpair": rng.random() < 0.4},
+                              "all": rng.random() < 0.5, "rpair": rng.random() < 0.5},
                       "seed": rng.randrange(1 << 30)})
         if cases[-1]["stamps"] == "none":
             cases[-1]["offset"] = 0.0
